@@ -92,6 +92,13 @@ class C02(RS.StepProp):
                 out.append(c)
         for _ in range(n_nx):
             out.append(NX.rand_case(rng))
+        # histories: the same kind of input after an unrelated public helper ran in this process (compute_mass on a bare
+        # pysmiles graph).  They come LAST in the round because a helper that leaves state behind affects all that follows.
+        aa_cases = [c for c in out if c.get('kind') == 'step' and c['laa'] and c['level'] == c['s'].count('.{') - 1]
+        for c in aa_cases[:4]:
+            out.append(dict(c, prelude='compute_mass'))
+        out.append({'kind': 'step', 's': '{[#A][#B]}.{#A=[$]CC[$],#B=[$]OC}', 'laa': True, 'legacy': True, 'level': 0,
+                    'prelude': 'compute_mass'})
         return out
 
     # ---------------------------------------------------------------------------------------------
@@ -101,9 +108,13 @@ class C02(RS.StepProp):
             impl['_k'] = self.put_term([], 'C02Check.KNx %s' % NX.coq_case(case, impl))
             return impl
         from cgsmiles.resolve import MoleculeResolver
-        key = (case['s'], case['laa'], case['legacy'], bool(case.get('rekey')))
+        key = (case['s'], case['laa'], case['legacy'], bool(case.get('rekey')), case.get('prelude'))
 
         def make():
+            if case.get('prelude') == 'compute_mass':
+                import pysmiles
+                from cgsmiles.pysmiles_utils import compute_mass
+                compute_mass(pysmiles.read_smiles('CCO'))
             if not case.get('rekey'):
                 return MoleculeResolver.from_string(case['s'], last_all_atom=case['laa'], legacy=case['legacy'])
             import re
@@ -124,6 +135,20 @@ class C02(RS.StepProp):
         impl['_k'] = self.put_term([tab], 'C02Check.KStep ' + RS.lit_stepcase(rec, tab))
         return impl
 
+    def python_oracle(self, case, impl):
+        """fallback when the Coq side cannot be built (e.g. a generated table fails closed on a source change):
+        clauses 1 and 3 of C02 in Python on the summary of what the implementation returned"""
+        if case.get('kind') != 'step' or 'skip' in impl or impl.get('exc') or impl.get('coarse') is None:
+            return None
+        keys = {k for k, _, _ in impl['coarse']}
+        for _, fid in impl.get('fragid', []):
+            if not isinstance(fid, list) or not fid or any(f not in keys for f in fid):
+                return 1
+        covered = {n for _, _, nodes in impl['coarse'] for n in nodes}
+        if any(n not in covered for n, _ in impl.get('fragid', [])):
+            return 3
+        return None
+
     def known_class(self, case, impl, code):
         # class virtual_not_last was repaired in /repo fa307dd (fragid := the coarse key): nothing is excused
         return None
@@ -141,7 +166,7 @@ class C02(RS.StepProp):
             return 'skipped:' + str(impl['skip'])[:30]
         if impl.get('exc'):
             return 'raised:%s@%s' % (impl['exc'], RS.STAGES.get(impl['stage']))
-        return '%s:level%d%s%s' % ('all-atom' if impl['aa'] else 'coarse', case['level'], ':rekeyed' if case.get('rekey') else '',
+        return '%s:level%d%s%s' % ('all-atom' if impl['aa'] else 'coarse', case['level'], (':rekeyed' if case.get('rekey') else '') + (':after-compute_mass' if case.get('prelude') else ''),
                                  ':virtual-before-real' if impl.get('class') else '')
 
 
